@@ -26,11 +26,20 @@ META = {
                   "made of its own future draws and a call in which it re-draws its own candidate; spread-minimising for instance indexes "
                   "0..2000, zones 0..7, zone lists of 1..8 zones in unsorted order, both constructors, attributions by larger indexes through "
                   "generateTokensByInstanceID, dense taken sets inside the reserve, clusters that grow / lose / clone members, AddPartition "
-                  "0..n) is logged and TLC accepts the trace only if every clause holds after every event.",
+                  "0..n) is logged and TLC accepts the trace only if every clause holds after every event. Also bound: REAL ring.Lifecycler "
+                  "instances with the spread-minimising generator and the CanJoin check on, started in reverse index order on one in-memory "
+                  "store under testing/synctest - every ring write in which an instance first appears with tokens is a Join of the cluster "
+                  "machine (contract clauses, AllDistinct, SpreadOwnReserve, NeverShort, PrefixWhenGrowing); concurrent GenerateTokens calls "
+                  "on one RandomTokenGenerator (each call's contract); and the relational shadow of the spread clause, NoDonorStarved: in the "
+                  "sorted ring of all instances 0..n of a zone the donor of a token (owner of the next token clockwise that belongs to a "
+                  "smaller index - order comparisons only) ranges over EVERY instance below n-w when the tokens of the last w instances are "
+                  "considered (quick: n=200, w=50; thorough: also n=1300, w=100) - an instance that drops out of the generator's priority "
+                  "queue is never a donor again and is flagged (seeded mutant C16-a2, thorough tier).",
     "level_note": "NOT decided by this technique: the numeric clause of C16 (each instance's share of the key space within one percent of the "
                   "others', for every number of instances). It needs exact sums of 2^32-scale distances over up to 2000x512 tokens and the "
-                  "generator's float64 priorities; TLC has 32-bit integers and no floats, so a change that only degrades the spread is out of "
-                  "reach of this check. Relational clauses on the real code hold for the sampled indexes (quick: ~15 indexes per zone list plus "
+                  "generator's float64 priorities; TLC has 32-bit integers and no floats. Only its relational consequence NoDonorStarved "
+                  "is checked (windows of 50/100 instances, where the pinned code has >= 16 donations per instance): a change that degrades "
+                  "the spread while every instance keeps donating is out of reach of this check. Relational clauses on the real code hold for the sampled indexes (quick: ~15 indexes per zone list plus "
                   "all 0..200 of one zone; thorough: all of 0..64 in every zone, ~60 more up to 2000, all 0..2000 of one zone), not for all "
                   "2001x8 generators. Trusted: TLC, uint32->limb split, the driver's own bookkeeping of the ring it passes as taken set, "
                   "slices.Sort on the per-instance lists of generateTokensByInstanceID (reached by go:linkname, no change to dskit).",
@@ -40,12 +49,12 @@ META = {
 
 MC = {
     "quick": ["MC_quick_grow", "MC_quick_zones"],
-    "thorough": ["MC_quick_grow", "MC_quick_zones", "MC_thorough_grow", "MC_thorough_zones", "MC_thorough_three"],
+    "thorough": ["MC_quick_zones", "MC_thorough_grow", "MC_thorough_zones", "MC_thorough_three"],
 }
 # development aid on a shared machine: VERIF_TLC_WORKERS=4 bin/check C16 (default: all cores)
 WORKERS = int(os.environ.get("VERIF_TLC_WORKERS", "0")) or None
 TSCALE = float(os.environ.get("VERIF_C16_TIMEOUT_SCALE", "1"))      # development aid: oversubscribed machine
-COVERAGE_CFGS = ("MC_quick_grow", "MC_quick_zones")                 # vacuity guard (thorough tier) on the two small configs
+COVERAGE_CFGS = ("MC_thorough_grow", "MC_quick_zones")                 # vacuity guard (thorough tier) on the two small configs
 ACTIONS = ["PureCall", "Join", "Lose", "Leave", "Observe", "CanJoinObs", "AddPartition", "Family", "Construct"]
 
 
@@ -149,7 +158,8 @@ def run(ctx):
     ctx.rule = ("one case = one real call (constructor, GenerateTokens, CanJoin, reserve computation, AddPartition) logged and validated by "
                 "TLC against TokenGen.tla; non-trivial = the taken set intersects the generator's reserve / forces rejections of its own "
                 "candidates, the requested count is <= 0 or > 512 or exceeds the free tokens, a reserve is computed a second time by another "
-                "constructor / a larger index / AddPartition, or a CanJoin view with a decoy entry (counted by the driver)")
+                "constructor / a larger index / AddPartition, a CanJoin view with a decoy entry, a registration by a real lifecycler, a "
+                "concurrent call, or a donors ring (counted by the driver)")
     ctx.assumptions = ["TLC; uint32 -> (hi, lo) 16-bit limbs; the driver's bookkeeping of the ring passed as taken set",
                        "zone lists without duplicates; instance ids with a decimal suffix that fits an int",
                        "numeric spread clause of C16 is not decided (see level_note)"]
